@@ -245,7 +245,7 @@ class Emitter:
         return '\n'.join(lines)
 
 
-def emit_header(pool_name, terms, path):
+def emit_header(pool_name, terms, path, pairs=None):
     em = Emitter(pool_name)
     entries = []
     for i, t in enumerate(terms):
@@ -262,6 +262,11 @@ def emit_header(pool_name, terms, path):
                    % (i, cpp, sx, *(str(fl[k]).lower() for k in
                                    ('has_table', 'has_float', 'has_handle', 'constexpr_ok', 'has_unordered'))))
     out.append('constexpr int kPoolSize = %d;' % len(entries))
+    if pairs is not None:
+        out.append('template <int K> struct PairAt;')
+        for k, (a, b, tag) in enumerate(pairs):
+            out.append('template <> struct PairAt<%d> { static constexpr int a = %d, b = %d; static constexpr const char* tag = "%s"; };' % (k, a, b, tag))
+        out.append('constexpr int kPairCount = %d;' % len(pairs))
     out.append('}  // namespace pool_%s' % pool_name)
     with open(path, 'w') as f:
         f.write('\n'.join(out) + '\n')
@@ -439,6 +444,59 @@ def pool_h():
     return ts
 
 
+def pool_x():
+    """version families of tables (C07/C08): (terms, pairs); pairs = (writer idx, reader idx, tag)"""
+    rng = random.Random(20261001)
+    inner_a = ('table', 200, [(1, 'a', I('u64')), (2, 'a', STR)])
+    inner_b = ('table', 200, [(2, 'a', STR), (7, 'a', I('i8')), (1, 'd', I('u64'))])
+    fam1 = {1: [I('u32')], 2: [STR], 3: [vec(I('i16'))], 4: [('opt', I('i8'))],
+            5: [('struct', [I('u8'), STR])], 6: [('pair', I('u8'), I('i32')), ('tuple', [I('u8'), I('i32')])],
+            8: [inner_a, inner_b], 70000: [('map', True, I('u8'), STR), ('map', False, I('u8'), STR)],
+            9: [('wrap', I('u16')), I('u16')]}
+    fam2 = {0: [I('u8')], 1: [('variant', [I('i32'), STR])], 2: [vec(STR)], 3: [('f64',)],
+            4: [('result', 2, 'i32', I('u8'))], 300: [('tuple', [STR, I('i8')]), ('pair', STR, I('i8'))]}
+
+    def versions(hash_, fam, n):
+        vs = []
+        ids = sorted(fam)
+        # the full definition in id order, and its reverse
+        vs.append(('table', hash_, [(i, 'a', fam[i][0]) for i in ids]))
+        vs.append(('table', hash_, [(i, 'a', fam[i][-1]) for i in reversed(ids)]))
+        while len(vs) < n:
+            sub = rng.sample(ids, rng.randint(1, len(ids)))
+            ents = [(i, 'd' if rng.random() < 0.25 else 'a', rng.choice(fam[i])) for i in sub]
+            if all(e[1] == 'd' for e in ents):
+                continue
+            t = ('table', hash_, ents)
+            if repr(t) not in [repr(v) for v in vs]:
+                vs.append(t)
+        return vs
+
+    terms, pairs = [], []
+    f1 = versions(100, fam1, 7)
+    f2 = versions(2 ** 63 + 11, fam2, 5)
+    for fam in (f1, f2):
+        base = len(terms)
+        terms += fam
+        for a in range(len(fam)):
+            for b in range(len(fam)):
+                pairs.append((base + a, base + b, 'version'))
+    # the same versions nested in a structure (followed by a member), a vector and another table's entry
+    ctxs = [lambda v: ('struct', [v, I('u8'), STR]), lambda v: vec(v),
+            lambda v: ('table', 300, [(1, 'a', v), (2, 'a', I('u8'))]),
+            lambda v: ('tuple', [I('u8'), ('opt', v), v])]
+    for ci, ctx in enumerate(ctxs):
+        for fam in (f1, f2):
+            picks = rng.sample(range(len(fam)), 3)
+            base = len(terms)
+            terms += [ctx(fam[i]) for i in picks]
+            for a in range(3):
+                for b in range(3):
+                    if a != b:
+                        pairs.append((base + a, base + b, 'nested'))
+    return terms, pairs
+
+
 if __name__ == '__main__':
     import sys
     name, out = sys.argv[1], sys.argv[2]
@@ -446,7 +504,12 @@ if __name__ == '__main__':
         terms = pool_a() + pool_random(20260929, 20)
     elif name == 'h':
         terms = pool_h()
+    elif name == 'x':
+        terms = []
     else:
         terms = pool_random(int(sys.argv[3]), int(sys.argv[4]))
-    es = emit_header(name, terms, out)
+    pairs = None
+    if name == 'x':
+        terms, pairs = pool_x()
+    es = emit_header(name, terms, out, pairs)
     print('%d types' % len(es))
